@@ -111,6 +111,17 @@ PADS = [(0, 0), (3, 5), (8, 8)]
 # divisible-by-8 adjustment adds no padding either and the last scan row sits on / beyond the last object pixel.
 # Steps in object pixels: integer positions (0,4,8) on both axes; fractional (0,4.15,8.3) x (0,2.1,4.2).
 EDGE_STEPS = [(4.0, 4.0), (4.15, 2.1)]
+# "half_pixel_ties" family: positions that are EXACT half-pixel ties by construction.  Object sampling (2.0, 1.0) A and
+# steps of 0.5 / 1.5 / 2.5 object pixels are dyadic, so every float32/float64 operation the library performs on the
+# positions is exact (verified at run time: the library's float32 positions must equal k + 0.5 exactly, else the point
+# is skipped and counted).  4 points along one axis and 2 along the other: the scanned extent (1.5, 4.5, 7.5 / 0.5,
+# 1.5, 2.5 px) is never near an integer, and ties with even AND odd integer part occur at every point (the adjusted
+# padding takes both parities across the family).  Which pixel a tie goes to is a convention the property does not
+# prescribe; only consistency (patch origin + fractional shift = position) is demanded, see judge().
+TIE_SAMPLING = (2.0, 1.0)
+TIE_STEPS = [(0.5, 1.5), (1.5, 2.5), (2.5, 0.5)]
+TIE_SCANS = [(4, 2), (2, 4)]
+TIE_PADS = [(3, 5), (1, 1)]
 
 
 def lattice(tier):
@@ -119,11 +130,14 @@ def lattice(tier):
         main = dict(obj_type=OBJ_TYPES, slices=[1, 3], modes=[1, 2], roi=ROIS[:2], scan=[SCANS[3], SCANS[1]], step=STEPS, pad=PADS[:2])
         const = dict(obj_type=OBJ_TYPES, slices=[1, 2], modes=[1, 2], roi=ROIS[:2], scan=[SCANS[1]], step=["fractional"], pad=[PADS[1]])
         edge = dict(obj_type=OBJ_TYPES, slices=[1], modes=[1], roi=ROIS[:1], scan=[(3, 3)], step=EDGE_STEPS, pad=[PADS[0]])
+        ties = dict(obj_type=OBJ_TYPES[:1], slices=[1, 2], modes=[1, 2], roi=ROIS[:2], scan=TIE_SCANS, step=TIE_STEPS, pad=TIE_PADS[:1], sampling=[TIE_SAMPLING])
     else:
         main = dict(obj_type=OBJ_TYPES, slices=[1, 2, 3, 4], modes=[1, 2, 3], roi=ROIS, scan=SCANS, step=STEPS, pad=PADS)
         const = dict(obj_type=OBJ_TYPES, slices=[1, 2], modes=[1, 2], roi=ROIS, scan=[SCANS[0], SCANS[1], SCANS[3]], step=STEPS, pad=PADS[:2])
         edge = dict(obj_type=OBJ_TYPES, slices=[1, 2], modes=[1, 2], roi=ROIS[:2], scan=[(3, 3)], step=EDGE_STEPS, pad=[PADS[0]])
-    fams = [("main", "no_shift", "random", main), ("constant_descan_vacuum", "constant", "vacuum", const), ("unpadded_edge", "no_shift", "random", edge)]
+        ties = dict(obj_type=OBJ_TYPES, slices=[1, 2], modes=[1, 2], roi=ROIS, scan=TIE_SCANS, step=TIE_STEPS, pad=TIE_PADS, sampling=[TIE_SAMPLING])
+    fams = [("main", "no_shift", "random", main), ("constant_descan_vacuum", "constant", "vacuum", const), ("unpadded_edge", "no_shift", "random", edge),
+            ("half_pixel_ties", "no_shift", "random", ties)]
     items = []
     alph = {}
     for fam, descan, content, a in fams:
@@ -154,11 +168,14 @@ def point_rng(seed, index, stream=0):
     return np.random.default_rng([int(seed), 2, int(index), int(stream)])
 
 
-def evaluate(item, seed=0):
-    """Run every oracle at one lattice point. Returns (record, fails) with fails = [(cls, msg)]."""
+def evaluate(item, seed=0, tie=None):
+    """Run every oracle at one lattice point. Returns (record, fails) with fails = [(cls, msg)].
+    `tie` ("even" | "up") selects the simulator's convention for exact half-pixel ties (half_pixel_ties family)."""
     import torch
 
     cfg, index = item["cfg"], item["index"]
+    if tie is not None:
+        cfg = dict(cfg, tie=tie)
     fails = []
     seen = set()
 
@@ -240,6 +257,28 @@ def evaluate(item, seed=0):
                          f"ground truth max |predicted - simulated| / max(simulated) = {d0:.3g} (the remaining oracles are skipped at this point)")
             rec["moved"] = float(moved.max())
             return rec, fails
+
+        # ------------------------------------------------------------------ (5c) patch origin + fractional shift = position
+        stage = "placement"
+        pl = pr.lib_placement(full)
+        res = (pl["origin_mod"] + pl["frac"] - pl["positions_px"]) % pl["obj_shape"]
+        res = np.minimum(res, pl["obj_shape"] - res).max(1)
+        rec["placement_residual"] = float(res.max())
+        if res.max() > TOL["positions_px"]:
+            js = [int(j) for j in np.flatnonzero(res > TOL["positions_px"])]
+            j = js[0]
+            fail({"relation": "patch_origin_plus_fraction_is_position"},
+                 f"one dset.forward call places pattern {j} inconsistently: position {pl['positions_px'][j].tolist()}, patch origin (mod object shape "
+                 f"{pl['obj_shape'].tolist()}) {pl['origin_mod'][j].tolist()}, fractional shift handed to the probe {pl['frac'][j].tolist()}: origin + shift is "
+                 f"{res[j]:.3g} px away from the position; {len(js)} of {J} patterns affected ({js})")
+        if geo.has_ties:
+            # the family is only meaningful if the library's own float32 positions are the exact ties
+            rec["tie_exact_in_library"] = bool(np.array_equal(lg["positions_px"], geo.positions_px) and geo.exact_ties.any())
+            ip = np.floor(geo.positions_px[geo.exact_ties]).astype(int)
+            rec["ties_even"], rec["ties_odd"] = int((ip % 2 == 0).sum()), int((ip % 2 == 1).sum())
+            if not rec["tie_exact_in_library"]:
+                rec["skipped"] = "library positions are not exact half-pixel ties"
+                return rec, fails
 
         # ------------------------------------------------------------------ states
         prng = point_rng(seed, index, 1)
@@ -358,14 +397,35 @@ def evaluate(item, seed=0):
     return rec, fails
 
 
+def judge(item, seed=0):
+    """evaluate() plus the acceptance rule of the half_pixel_ties family: the library passes if it agrees with the
+    simulator under at least ONE tie convention applied consistently to patch origin and fractional shift (data, geometry
+    and every oracle recomputed under that convention): half-to-even first, then half-up.  If neither passes, the
+    failures under half-to-even are reported, each message saying that half-up failed as well."""
+    if item["family"] != "half_pixel_ties":
+        rec, fails = evaluate(item, seed=seed)
+        return rec, fails
+    rec, fails = evaluate(item, seed=seed, tie="even")
+    rec["tie_convention"] = "half_to_even"
+    if not fails or rec["degenerate"] or rec.get("skipped"):
+        return rec, fails
+    rec_up, fails_up = evaluate(item, seed=seed, tie="up")
+    if not fails_up:
+        rec_up["tie_convention"] = "half_up"
+        return rec_up, fails_up
+    rec["tie_convention"] = "neither"
+    up = sorted({c.get("relation", "?") for c, _ in fails_up})
+    return rec, [(c, m + f" [simulator ties half-to-even; with ties half-up the point fails too: {', '.join(up)}]") for c, m in fails]
+
+
 def check_point(item, seed=0):
     t = Tally()
-    rec, fails = evaluate(item, seed=seed)
+    rec, fails = judge(item, seed=seed)
     if rec["degenerate"]:
         t.case(key=item["cfg"], nontrivial=False, outcome=None)
         t.extra["excluded_zero_length_object_axis"] += 1
         return t
-    outcome = (rec["obj_shape_expected"], rec["pad_adj"], rec["J"], rec["wraps"], rec["fractional"])
+    outcome = (rec["obj_shape_expected"], rec["pad_adj"], rec["J"], rec["wraps"], rec["fractional"], rec.get("tie_convention"))
     t.case(key=item["cfg"], nontrivial=True, outcome=outcome)
     t.extra["batches_forwarded"] += rec.get("batches", 0)
     t.extra["loss_evaluations"] += 4 * rec.get("batches", 0)
@@ -375,6 +435,12 @@ def check_point(item, seed=0):
     t.extra["points_nonsquare_roi"] += int(item["cfg"]["roi"][0] != item["cfg"]["roi"][1])
     t.extra["points_constant_descan"] += int(item["cfg"]["descan"] == "constant")
     t.extra["points_with_a_position_beyond_the_last_object_pixel"] += int(rec["on_edge"])
+    if item["family"] == "half_pixel_ties":
+        t.extra["tie_points_exact_in_library_arithmetic"] += int(bool(rec.get("tie_exact_in_library")))
+        t.extra["tie_points_skipped_library_positions_inexact"] += int(bool(rec.get("skipped")))
+        t.extra["tie_coordinates_even_integer_part"] += rec.get("ties_even", 0)
+        t.extra["tie_coordinates_odd_integer_part"] += rec.get("ties_odd", 0)
+        t.extra["tie_points_library_matches_" + rec.get("tie_convention", "?")] += int(not rec.get("skipped"))
     for cls, msg in fails:
         t.fail(cls, {"index": item["index"], "family": item["family"], "cfg": item["cfg"]}, f"{json.dumps(item['cfg'], sort_keys=True)} :: {msg}")
     if (item["index"] % 97 == 0 or item["family"] != "main" and item["index"] % 7 == 0) and "worst" in rec:
@@ -397,7 +463,10 @@ def run(ctx):
     ndeg = 0
     for it in items:
         g = PT.geometry(PT.normalise(it["cfg"]))
-        if g.fragile:
+        if it["family"] == "half_pixel_ties":
+            if g.fragile_fov or not g.exact_ties.any() or not np.array_equal(g.ties, g.exact_ties):
+                raise Broken(f"half_pixel_ties point without exact ties or with a fragile extent: {it['cfg']}")
+        elif g.fragile:
             raise Broken(f"lattice point on a rounding discontinuity (fragile geometry): {it['cfg']}")
         ndeg += int(g.degenerate)
     ctx.say(f"lattice: {len(items)} points ({ndeg} with a zero-length object axis, excluded), tier {ctx.tier}")
@@ -429,16 +498,18 @@ def run(ctx):
     if nontrivial < 0.7 * len(items):
         raise Broken(f"only {nontrivial} of {len(items)} lattice points are non-degenerate")
     for k in ("points_with_wraparound_patches", "points_where_round_differs_from_floor", "points_nonsquare_roi", "points_constant_descan",
-              "points_with_a_position_beyond_the_last_object_pixel"):
+              "points_with_a_position_beyond_the_last_object_pixel", "tie_points_exact_in_library_arithmetic",
+              "tie_coordinates_even_integer_part", "tie_coordinates_odd_integer_part"):
         if merged.extra[k] == 0:
             raise Broken(f"vacuous lattice: {k} = 0")
 
 
 def replay(ctx, case):
     item = {"index": case["index"], "family": case.get("family", "?"), "cfg": case["cfg"]}
-    rec, fails = evaluate(item, seed=ctx.seed)
+    rec, fails = judge(item, seed=ctx.seed)
     print("  point:", json.dumps(case["cfg"], sort_keys=True))
-    for k in ("degenerate", "obj_shape_expected", "obj_shape_lib", "pad_adj", "J", "dpos", "L_truth", "worst", "stationary"):
+    for k in ("degenerate", "obj_shape_expected", "obj_shape_lib", "pad_adj", "J", "dpos", "placement_residual", "tie_convention", "tie_exact_in_library",
+              "skipped", "L_truth", "worst", "stationary"):
         if k in rec:
             print(f"  {k}: {rec[k]}")
     for cls, msg in fails:
